@@ -20,6 +20,14 @@
 (*       just the initial `ifrom`, ifrom = 0 starts with a pause.          *)
 (*   a composite (list) is the concatenation of its items' parts, every    *)
 (*   part starting where the previous one finished.                        *)
+(*   composite(kids)             a composite written INSIDE a profile (a    *)
+(*       list in the list, or `type: composite`): the same concatenation,  *)
+(*       at every depth.  A group lasts as long as ALL its items last,     *)
+(*       token-less ones (const 0 for d = a hold; a const whose ops * d    *)
+(*       stays below 1) included, wherever they stand in the group: what   *)
+(*       follows the group starts no earlier than the end of its last      *)
+(*       item (spec/Schedule.tla's composite: a nested schedule's finish   *)
+(*       instant is the start instant of the one after it).                *)
 (***************************************************************************)
 EXTENDS ProfileMath
 
@@ -31,19 +39,6 @@ ISteps(it) == IF it.ito >= it.ifrom THEN (it.ito - it.ifrom) \div it.step ELSE 0
 
 RECURSIVE Rep(_, _)
 Rep(s, k) == IF k <= 0 THEN <<>> ELSE s \o Rep(s, k - 1)
-
-ItemParts(it) ==
-  CASE it.ctor = "once"  -> <<OnceP(it.times)>>
-    [] it.ctor = "const" -> <<ConstP(it.from_m, it.dur)>>
-    [] it.ctor = "line"  -> <<RateP("line", it)>>
-    [] it.ctor = "step"  -> Parts(RateP("step", it))
-    [] it.ctor = "instance_step" -> <<OnceP(it.ifrom)>> \o Rep(<<ConstP(0, it.dur), OnceP(it.step)>>, ISteps(it))
-    [] OTHER -> <<>>                      \* "unlimited": no guaranteed token, length unknown
-
-RECURSIVE DescParts(_, _)
-DescParts(desc, j) == IF j > Len(desc) THEN <<>> ELSE ItemParts(desc[j]) \o DescParts(desc, j + 1)
-
-HasUnknown(desc) == \E j \in 1..Len(desc) : desc[j].ctor = "unlimited"
 
 \* How many tokens a part hands out: exactly `times` for once; for a rate part floor(Integral over the
 \* duration) with the duration taken up to Tau (ProfileMath!CountOK: when the exact integral lies within
@@ -58,6 +53,32 @@ LOCAL MaxN(a, b) == IF a >= b THEN a ELSE b
 PartLo(p) == IF p.kind = "once" THEN p.times ELSE MaxCum(Coef(p), Sub(p.dur, Tau), 0, CMax)
 PartHi(p) == IF p.kind = "once" THEN p.times
              ELSE MaxN(MaxCum(Coef(p), p.dur, 0, CMax), MaxCum(Coef(p), Add(p.dur, Tau), 0, CMax))
+
+\* CONSTANT-free switch for the negative control of the grouping rule (cfg/StartupGroups_neg_droptail.cfg): a group that ends
+\* when its last TOKEN is handed out, i.e. whose trailing token-less items are dropped - what a composite that
+\* "does not make the caller wait through the tail" would denote.  FALSE everywhere else.
+GroupDropsTail == FALSE
+
+\* a part that hands out no token whatever the rounding: a hold (const 0 for d), a const whose ops * d stays below 1
+TokenLess(p) == p.kind # "once" /\ PartHi(p) = 0
+RECURSIVE DropTail(_)
+DropTail(ps) == IF ps # <<>> /\ TokenLess(ps[Len(ps)]) THEN DropTail(SubSeq(ps, 1, Len(ps) - 1)) ELSE ps
+
+RECURSIVE ItemParts(_), DescParts(_, _)
+ItemParts(it) ==
+  CASE it.ctor = "once"  -> <<OnceP(it.times)>>
+    [] it.ctor = "const" -> <<ConstP(it.from_m, it.dur)>>
+    [] it.ctor = "line"  -> <<RateP("line", it)>>
+    [] it.ctor = "step"  -> Parts(RateP("step", it))
+    [] it.ctor = "instance_step" -> <<OnceP(it.ifrom)>> \o Rep(<<ConstP(0, it.dur), OnceP(it.step)>>, ISteps(it))
+    [] it.ctor = "composite" -> IF GroupDropsTail THEN DropTail(DescParts(it.kids, 1)) ELSE DescParts(it.kids, 1)
+    [] OTHER -> <<>>                      \* "unlimited": no guaranteed token, length unknown
+
+DescParts(desc, j) == IF j > Len(desc) THEN <<>> ELSE ItemParts(desc[j]) \o DescParts(desc, j + 1)
+
+RECURSIVE HasUnknown(_)
+HasUnknown(desc) == \E j \in 1..Len(desc) : \/ desc[j].ctor = "unlimited"
+                                            \/ desc[j].ctor = "composite" /\ HasUnknown(desc[j].kids)
 
 RECURSIVE SumLo(_, _)
 SumLo(parts, j) == IF j > Len(parts) THEN 0 ELSE PartLo(parts[j]) + SumLo(parts, j + 1)
